@@ -15,10 +15,11 @@ let merr_name = function
   | Mgr.MCrc32Mismatch -> "Crc32Mismatch" | Mgr.MCheckFailNotDone -> "CheckFailNotDone" | Mgr.MCheckFailNotFirmware -> "CheckFailNotFirmware"
   | Mgr.MUnexpectedMissingHeader -> "UnexpectedMissingHeader" | Mgr.MFatal -> "Fatal"
 
+let checked_build = ref true
 let counters (u : Mgr.updater) =
   let r = int_of_nat (Mgr.received u) and t = int_of_nat (Mgr.total u) in
-  (* remaining = total - received in u32 arithmetic: panics (checked build) when received > total *)
-  Printf.sprintf "r=%d/%d/%s/%d" r t (if r > t then "panic" else string_of_int (t - r)) (if u.Mgr.u_complete then 1 else 0)
+  (* remaining = total - received in u32 arithmetic: panics in an overflow-checked build when received > total, wraps otherwise *)
+  Printf.sprintf "r=%d/%d/%s/%d" r t (if r > t then (if !checked_build then "panic" else string_of_int (t - r + 4294967296)) else string_of_int (t - r)) (if u.Mgr.u_complete then 1 else 0)
 
 let fmt_ops (blk : int) (ops : Mgr.fop list) : string =
   let arr = Array.of_list ops in
@@ -196,11 +197,14 @@ let run_case ~(checked : bool) ~(ffr : bool) (nslots : int) (slot : int) (blk : 
           "X", keep
         | _ -> dev := flatten fl blk !dev newops []; tok, newops in
       let lg = fmt_ops blk shown in
-      out := (if lg = "" then tok else tok ^ "[" ^ lg ^ "]") :: !out) ops;
+      let nops = int_of_n (!dev).Mgr.dops - int_of_n before.Mgr.dops in
+      let tok = if lg = "" then tok else tok ^ "[" ^ lg ^ "]" in
+      out := (if nops <> 0 && not passive && not !dead then tok ^ "#" ^ string_of_int nops else tok) :: !out) ops;
   String.concat " ; " (List.rev !out)
 
 let run args =
   let checked = not (List.mem "release" args) and ffr = List.mem "ffr" args in
+  checked_build := checked;
   iter_lines (fun line ->
     match String.index_opt line '|' with
     | None -> print_endline "?"
